@@ -149,6 +149,19 @@ def gen_scenario(ctx, k):
         model_view = {b['id']: m.addr[b['id']] for b in cfg['boards'] if m.connected(b['id'])}
         if bus_view != model_view:
             pairs = []
+        if bus_view == model_view and leaves and rng.random() < 0.4:
+            # a board leaves the bus WITHOUT a notice (the interface lost the message, or was reset itself) and the application reads the node
+            # table again: it is not in the tree any more, so it is not connected any more - and the second start-up dialogue talks to nobody there
+            X = rng.choice(leaves)
+            ax = m.addr[X['id']]
+            sc.add(f'bus delnode {ax[0]}.{ax[1]}.{ax[2]}', 'mark cx', 'reset', 'quiesce', 'flush', 'quiesce', 'mark swapped', 'snap r0')
+            m.addr.pop(X['id'])
+            present.pop(tuple(ax), None)
+
+            def hook(mm, xi=X['id']):
+                mm.addr.pop(xi, None)
+            hooks['swapped'] = hook
+            pairs = []
         if pairs:
             x, y = rng.choice(pairs)
             ax, ay = m.addr[x['id']], m.addr[y['id']]
